@@ -21,10 +21,10 @@ func (c18Stream) Name() string               { return "c18" }
 func (c18Stream) CaseTimeout() time.Duration { return 60 * time.Second }
 func (c18Stream) NoModel() bool              { return true }
 func (c18Stream) Rule() string {
-	return "TLS configurations {server authentication only, client certificate required and verified (the test directory's WithMTLS configuration)} x {static certificate list, certificate supplied by the GetCertificate callback, whole configuration supplied per client by GetConfigForClient} x offenders {plaintext LDAP request of each of the seven operations, random bytes, TCP connect without ClientHello, valid TLS without a client certificate, a certificate from a different CA, a foreign leaf with the genuine client certificate appended to its chain, no / foreign certificate without SNI, a truncated first TLS record followed by silence} (1..6 offenders in parallel, now and then together with a crowd of 70 clients that connect and stay silent), optionally with a second, weaker TLS configuration handed to NewServer (the one given to Run governs), concurrently with two conforming clients issuing requests and a third that connects while the offenders (a silent one holds its connection for 1.2 s) are still there; oracle: no handler ever runs for an offender's message (offenders use reserved message ids) nor on an offender's connection at all, every conforming request is answered, and each offender's connection is ended without disturbing the others; non-trivial = at least one offender whose bytes would decode as LDAP, distinct by scenario"
+	return "TLS configurations {server authentication only, client certificate required and verified (the test directory's WithMTLS configuration)} x {static certificate list, certificate supplied by the GetCertificate callback, whole configuration supplied per client by GetConfigForClient} x offenders {plaintext LDAP request of each of the seven operations, random bytes, TCP connect without ClientHello, valid TLS without a client certificate, a certificate from a different CA (generated after, or before, the server configuration in the same process), a foreign leaf with the genuine client certificate appended to its chain, no / foreign certificate without SNI, a truncated first TLS record followed by silence} (1..6 offenders in parallel, now and then together with a crowd of 70 clients that connect and stay silent), optionally with a second, weaker TLS configuration handed to NewServer (the one given to Run governs), concurrently with two conforming clients issuing requests and a third that connects while the offenders (a silent one holds its connection for 1.2 s) are still there; oracle: no handler ever runs for an offender's message (offenders use reserved message ids) nor on an offender's connection at all, every conforming request is answered, and each offender's connection is ended without disturbing the others; non-trivial = at least one offender whose bytes would decode as LDAP, distinct by scenario"
 }
 
-var c18Offenders = []string{"plain-bind", "plain-search", "plain-modify", "plain-add", "plain-delete", "plain-extended", "plain-unbind", "random", "silent", "nocert", "othercert", "otherchain", "nocert-nosni", "othercert-nosni", "halfhello"}
+var c18Offenders = []string{"plain-bind", "plain-search", "plain-modify", "plain-add", "plain-delete", "plain-extended", "plain-unbind", "random", "silent", "nocert", "othercert", "otherchain", "nocert-nosni", "othercert-nosni", "halfhello", "earliercert"}
 
 func (c18Stream) Generate(rng *rand.Rand, n int, thorough bool) []Case {
 	var cs []Case
@@ -34,7 +34,7 @@ func (c18Stream) Generate(rng *rand.Rand, n int, thorough bool) []Case {
 		offs := make([]string, k)
 		for i := range offs {
 			offs[i] = c18Offenders[rng.Intn(len(c18Offenders))]
-			if mtls == 0 && (strings.HasPrefix(offs[i], "nocert") || strings.HasPrefix(offs[i], "othercert") || offs[i] == "otherchain") {
+			if mtls == 0 && (strings.HasPrefix(offs[i], "nocert") || strings.HasPrefix(offs[i], "othercert") || offs[i] == "otherchain" || offs[i] == "earliercert") {
 				offs[i] = "plain-bind" // without client-auth these two are conforming clients
 			}
 		}
@@ -210,13 +210,16 @@ func (c18Stream) Impl(c Case) string {
 				if n > 0 && buf[0] == 0x30 {
 					fail("a plaintext %s offender received an LDAP response", kind)
 				}
-			case strings.HasPrefix(kind, "nocert") || strings.HasPrefix(kind, "othercert") || kind == "otherchain":
+			case strings.HasPrefix(kind, "nocert") || strings.HasPrefix(kind, "othercert") || kind == "otherchain" || kind == "earliercert":
 				cfg := cliTLS.Clone() // trusts the server's CA? for mtls use its own pool
 				cfg = goodCli.Clone()
 				cfg.ServerName = "localhost"
 				cfg.Certificates = nil
 				if strings.HasPrefix(kind, "othercert") {
 					cfg.Certificates = otherCAClient.Certificates
+				}
+				if kind == "earliercert" {
+					cfg.Certificates = earlierCAClient.Certificates // issued by the CA of an earlier, unrelated configuration
 				}
 				if strings.HasSuffix(kind, "-nosni") {
 					// a client that dials the IP literal and sends no server name (and does not care whom it talks to)
